@@ -22,6 +22,7 @@ MODULES = {
     "bee": "spsdk.image.bee",
     "hab": "spsdk.image.hab.segments",
     "habrt": "spsdk.image.images",
+    "habfull": "spsdk.image.hab.hab_container",
 }
 
 
@@ -506,13 +507,32 @@ def op_bee_config(o: dict) -> dict:
     return {"kind": "bee_config", "slots": slots, "explicit": [] if empty_key else [k for k in slots if k.startswith("user_key")]}
 
 
+def op_hab_full(o: dict) -> dict:
+    """A complete encrypted HAB image the way `nxpimage hab export` builds it (BD configuration -> HabContainer.
+    load_from_config -> export): SPSDK chooses the DEK (written to the project folder) and the nonce."""
+    import shutil
+
+    from spsdk.image.hab.hab_container import HabContainer
+
+    ws = os.path.join(WORKDIR, o.get("ws", "hab0") + FORK_TAG)
+    if not os.path.isdir(ws):
+        shutil.copytree(os.path.join(GOLDEN, "hab"), ws)
+    cfg = HabContainer.load_configuration(os.path.join(ws, "config.bd"), [os.path.join(ws, "evkmimxrt1064_iled_blinky_SDRAM.s19")], search_paths=[ws])
+    hab = HabContainer.load_from_config(cfg, search_paths=[ws])
+    hab.export()
+    csf = hab.csf_segment
+    with open(os.path.join(ws, "gen_hab_encrypt", "evkmimxrt1064_iled_blinky_SDRAM_hab_dek.bin"), "rb") as f:
+        stored = f.read()
+    return {"kind": "hab_full", "slots": {"dek": bytes(csf.dek).hex(), "nonce": bytes(csf.nonce).hex()}, "explicit": [], "pair": ["dek", "nonce"], "stored_equal": stored == bytes(csf.dek)}
+
+
 WORKDIR = tempfile.gettempdir()
 FORK_TAG = ""
 
 SHARED: dict = {}
 ENT = None
 
-OPS = {"sb2": op_sb2, "sb2_config": op_sb2_config, "fork": op_fork, "mbi_class": op_mbi_class, "mbi_config": op_mbi_config, "otfad": op_otfad, "iee": op_iee, "bee": op_bee, "hab": op_hab, "hab_rt": op_hab_rt, "bee_config": op_bee_config, "iee_config": op_iee_config, "sb2_keywrap": op_sb2_keywrap}
+OPS = {"sb2": op_sb2, "sb2_config": op_sb2_config, "fork": op_fork, "mbi_class": op_mbi_class, "mbi_config": op_mbi_config, "otfad": op_otfad, "iee": op_iee, "bee": op_bee, "hab": op_hab, "hab_rt": op_hab_rt, "bee_config": op_bee_config, "iee_config": op_iee_config, "sb2_keywrap": op_sb2_keywrap, "hab_full": op_hab_full}
 
 
 def run_epoch(spec: dict) -> dict:
